@@ -242,6 +242,7 @@ func build(sp *spec, idKind, order, cont int) *built {
 	if cont == contMulti {
 		return buildMulti(sp, idKind, order)
 	}
+	lazy := cont == contLazy
 	n := sp.n
 	ids := idMap(idKind, n)
 	b := &built{sp: sp, ids: ids, idx: make(map[int64]int, n)}
@@ -257,7 +258,7 @@ func build(sp *spec, idKind, order, cont int) *built {
 			pos[id] = (i + n - 1) % n
 		}
 	}
-	base := ordBase{pos: pos}
+	base := ordBase{pos: pos, lazy: lazy}
 	each := func(f func(i, j int, w float64)) {
 		for i := 0; i < n; i++ {
 			for j := 0; j < n; j++ {
@@ -327,10 +328,46 @@ func build(sp *spec, idKind, order, cont int) *built {
 const (
 	contSimple = iota
 	contMulti  // multi.* graphs, every edge made of two parallel lines
+	contLazy   // simple.* graphs whose Nodes/From/To iterators report an indeterminate length
 	nContainers
 )
 
-var contNames = []string{"simple", "multi"}
+var contNames = []string{"simple", "multi", "lazy"}
+
+// lazyNodes is a graph.Nodes of indeterminate length: Len is -1 until the
+// iterator is exhausted (graph.Iterator: "If the number of items in the
+// iterator is unknown, too large to materialize or too costly to calculate
+// then Len may return a negative value"), as an implicit or lazily evaluated
+// graph would report. It is deliberately not a graph.NodeSlicer.
+type lazyNodes struct {
+	nodes []graph.Node
+	pos   int
+}
+
+func (l *lazyNodes) Next() bool {
+	if l.pos < len(l.nodes) {
+		l.pos++
+		return l.pos <= len(l.nodes)
+	}
+	l.pos = len(l.nodes) + 1
+	return false
+}
+
+func (l *lazyNodes) Node() graph.Node {
+	if l.pos < 1 || l.pos > len(l.nodes) {
+		return nil
+	}
+	return l.nodes[l.pos-1]
+}
+
+func (l *lazyNodes) Len() int {
+	if l.pos > len(l.nodes) {
+		return 0
+	}
+	return -1
+}
+
+func (l *lazyNodes) Reset() { l.pos = 0 }
 
 // buildMulti constructs sp as a multigraph: every edge is two parallel lines
 // (stored with opposite orientations when undirected) whose default
@@ -420,10 +457,11 @@ func buildMulti(sp *spec, idKind, order int) *built {
 
 // ordBase presents a graph with a deterministic iteration order.
 type ordBase struct {
-	g   graph.Graph
-	pos map[int64]int
-	adj map[int64][]graph.Node
-	all []graph.Node
+	g    graph.Graph
+	pos  map[int64]int
+	adj  map[int64][]graph.Node
+	all  []graph.Node
+	lazy bool // Nodes/From/To report Len() == -1
 }
 
 func (o *ordBase) freeze() {
@@ -457,9 +495,18 @@ func (o ordBase) sorted(it graph.Nodes) []graph.Node {
 	return out
 }
 
-func (o ordBase) Node(id int64) graph.Node           { return o.g.Node(id) }
-func (o ordBase) Nodes() graph.Nodes                 { return fresh(o.all) }
-func (o ordBase) From(id int64) graph.Nodes          { return fresh(o.adj[id]) }
+func (o ordBase) Node(id int64) graph.Node  { return o.g.Node(id) }
+func (o ordBase) Nodes() graph.Nodes        { return o.iter(o.all) }
+func (o ordBase) From(id int64) graph.Nodes { return o.iter(o.adj[id]) }
+
+// iter hands out an exact-length iterator or, for the lazy container, one of
+// indeterminate length over the same nodes in the same order.
+func (o ordBase) iter(ns []graph.Node) graph.Nodes {
+	if o.lazy {
+		return &lazyNodes{nodes: append([]graph.Node(nil), ns...)}
+	}
+	return fresh(ns)
+}
 func (o ordBase) HasEdgeBetween(xid, yid int64) bool { return o.g.HasEdgeBetween(xid, yid) }
 func (o ordBase) Edge(uid, vid int64) graph.Edge     { return o.g.Edge(uid, vid) }
 
@@ -477,7 +524,7 @@ type ordDir struct {
 }
 
 func (o ordDir) HasEdgeFromTo(uid, vid int64) bool { return o.d.HasEdgeFromTo(uid, vid) }
-func (o ordDir) To(id int64) graph.Nodes           { return fresh(o.sorted(o.d.To(id))) }
+func (o ordDir) To(id int64) graph.Nodes           { return o.iter(o.sorted(o.d.To(id))) }
 
 // ordWDir is a weighted directed ordered graph.
 type ordWDir struct {
@@ -591,7 +638,8 @@ func forGraphs(s graphSpace, all bool, f func(key string, mk func() *built)) {
 			order := (idx/3 + idKind) % nOrders
 			cont := (idx/9 + idKind) % nContainers
 			if s.noMulti || s.self != 0 {
-				cont = contSimple
+				// simple containers only: exact-length and lazy iterators alternate
+				cont = []int{contSimple, contLazy}[(idx/9+idKind)%2]
 			}
 			key := fmt.Sprintf("%s#%d %s %s %s", s.name(), idx, idMapNames[idKind], orderNames[order], contNames[cont])
 			f(key, func() *built { return build(s.spec(idx), idKind, order, cont) })
